@@ -720,9 +720,12 @@ func (ns *normState) findTarget(pk *packages.Package, e ast.Expr, callees map[*t
 		if !simpleOperand(x.Fun) {
 			return nil
 		}
+		// operands evaluated before the target: plain identifiers and literals cannot be
+		// affected by the callee; field reads can, so the callee must only compute then
+		plain := plainOperand(x.Fun)
 		for _, a := range x.Args {
 			if t := ns.findTarget(pk, a, callees, false); t != nil {
-				if c := ns.calleeOf(pk, t, callees); c != nil && c.pure {
+				if c := ns.calleeOf(pk, t, callees); c != nil && (c.pure || (plain && t == a)) {
 					return t
 				}
 				return nil
@@ -730,6 +733,7 @@ func (ns *normState) findTarget(pk *packages.Package, e ast.Expr, callees map[*t
 			if !simpleOperand(a) {
 				return nil
 			}
+			plain = plain && plainOperand(a)
 		}
 	}
 	return nil
@@ -995,7 +999,7 @@ func (ns *normState) tryHoist(pk *packages.Package, file *ast.File, st ast.Stmt,
 	if c == nil || numResults(c) != 1 {
 		return false
 	}
-	if t != e && !c.pure && !firstEvaluated(e, t) {
+	if t != e && !c.pure && !firstEvaluated(e, t) && !plainBefore(e, t) {
 		// not the whole expression: only hoist computations
 		if _, isCall := e.(*ast.CallExpr); isCall {
 			return false
@@ -1181,4 +1185,35 @@ func firstEvaluated(e ast.Expr, t *ast.CallExpr) bool {
 			return false
 		}
 	}
+}
+
+// plainOperand: identifier, literal, or method selector on an identifier (x.m).
+func plainOperand(e ast.Expr) bool {
+	switch x := e.(type) {
+	case *ast.Ident, *ast.BasicLit:
+		return true
+	case *ast.ParenExpr:
+		return plainOperand(x.X)
+	case *ast.SelectorExpr:
+		_, isId := x.X.(*ast.Ident)
+		return isId
+	}
+	return false
+}
+
+// plainBefore: e is a call g(a1, …, t, …) whose function and arguments before t are plain.
+func plainBefore(e ast.Expr, t *ast.CallExpr) bool {
+	ce, ok := e.(*ast.CallExpr)
+	if !ok || !plainOperand(ce.Fun) {
+		return false
+	}
+	for _, a := range ce.Args {
+		if a == ast.Expr(t) {
+			return true
+		}
+		if !plainOperand(a) {
+			return false
+		}
+	}
+	return false
 }
